@@ -10,8 +10,9 @@
   (same AST incl. position or both reject, on ~30 000 token lists per run; escape classes of every code point).
 
   WHAT IS PROVED (no sorry, axioms: propext / Classical.choice / Quot.sound only)
-  * C07_unquote_escape_partial        Unquote(EscapeString s) = s for every string without U+FFFD
-    C07_unquote_escape_counterexample the code rejects its own rendering of U+FFFD (known finding)
+  * C07_unquote_escape                Unquote(EscapeString s) = s for EVERY string (full statement; the former
+                                      exclusion of U+FFFD went away with the repair of `replacement-char-rejected`;
+                                      the old counterexample is now a regression example)
   * C07_precedence_table, C07_precedence_levels, C07_marshal_table_agrees   table lemmas
   * C07_parser_total, C07_parser_total_list, C07_parseExpr_total   the fuel `|tokens| + 2` is never exhausted,
     for ARBITRARY token lists; C07_fuel_irrelevant: more fuel never changes the answer
@@ -20,13 +21,14 @@
   * C07_parse_renderMin_partial / C07_parse_renderFull_partial (expressions) and
     C07_parse_policy_renderMin_partial / …renderFull_partial (policies), C07_parse_policies_render_partial (lists)
     on the decidable fragment `inFrag` / `policyOK` (see below)
-  * C07_parse_renderMin_counterexample   `-5.foo` = renderMin (Negate (5.foo)) is rejected (known finding)
+    (the former counterexample `-5.foo` = renderMin (Negate (5.foo)) is now a regression example: repaired defect
+    `negated-int-receiver`)
   * C07_rejects_chained_relation, C07_rejects_reserved_*, C07_rejects_duplicate_annotation,
     C07_rejects_duplicate_record_key, C07_rejects_unknown_function, C07_rejects_method_as_function,
     C07_rejects_function_as_method, C07_rejects_unknown_method
 
   THE FRAGMENT (`Text.inFrag full e`, `Text.policyOK full p` in CedarGo/Model/Text/Fragment.lean; decidable; the
-  harness reports the share of generated cases inside it: ≈ 90 %):
+  harness reports the share of generated cases inside it: ≈ 94 %):
   expressions: boolean / long (int64 range) / string / entity literals (entity type = `::`-separated identifiers), the
   four variables, `!`, unary `-`, all 17 binary operators and methods (|| && == != < <= > >= in + - * contains
   containsAll containsAny getTag hasTag), isEmpty, if-then-else, attribute access in both forms, `has` in both forms,
@@ -35,8 +37,7 @@
   words), every scope form of the grammar (all / == / in / in [..] / is / is..in), any sequence of when / unless
   conditions; lists of policies.
   NOT covered by the round-trip theorems (they are in the executable model and in the correspondence check):
-  `like` (pattern literals); strings, ids, keys, annotation values containing U+FFFD (the code fails there); for
-  renderMin a negation whose operand's text starts with an integer token (`-5.foo`; the code fails there);
+  `like` (pattern literals);
   `has a.b.c` paths (parser sugar, never a rendering; covered by correspondence); whitespace / comment layout and
   "unterminated literal" (these concern the scanner, which is C18's model; here they are checked on the Go
   implementation by the harness only).
@@ -48,18 +49,18 @@ open CedarGo.Text
 
 /-! ## string escapes -/
 
-/-- `rust.Unquote(rust.EscapeString(s)) = s`, at the level of the string-literal token the printers emit:
-    the value the parser computes for the token `"EscapeString(s)"` is `s`. PARTIAL: `s` must not contain U+FFFD. -/
-theorem C07_unquote_escape_partial (s : String) (hs : replacementChar ∉ s.toList) :
+/-- `rust.Unquote(rust.EscapeString(s)) = s` for EVERY string, also at the level of the string-literal token the
+    printers emit: the value the parser computes for the token `"EscapeString(s)"` is `s`. -/
+theorem C07_unquote_escape (s : String) :
     unquote false (escapeString s.toList) = .ok (s.toList, []) ∧ stringValue (strT s).text = .ok s :=
-  ⟨unquote_escapeString s.toList hs, stringValue_strT s hs⟩
+  ⟨unquote_escapeString s.toList, stringValue_strT s⟩
 
-example : replacementChar ∉ "a\"b\\c\ńé😀\x00".toList := by decide
-
-/-- the full statement fails in the code: U+FFFD is printable, so it is written raw, and `nextRune` rejects it -/
-theorem C07_unquote_escape_counterexample :
-    ∃ s : List Char, unquoteErr (unquote false (escapeString s)) = some .badRune :=
-  ⟨[replacementChar], by decide +kernel⟩
+/-- regression (repaired defect `replacement-char-rejected`): U+FFFD is printable, so it is written raw, and
+    `Unquote` reads it back — `nextRune` used to reject every decoded `utf8.RuneError` -/
+example : escapeString [replacementChar] = [replacementChar] ∧
+    unquoteErr (unquote false (escapeString [replacementChar])) = none ∧
+    stringValue (strT (String.ofList ['a', replacementChar, 'b'])).text = .ok (String.ofList ['a', replacementChar, 'b']) :=
+  ⟨by decide +kernel, by decide +kernel, (C07_unquote_escape _).2⟩
 
 /-! ## precedence table -/
 
@@ -152,12 +153,20 @@ example : inFrag false
 example : policyOK false { effect := .forbid, annotations := [("id", "a\"b"), ("if", "")], principal := .isIn "NS::User" ("Group", "g 1"), action := .inSet [("Action", "a"), ("A::B::Action", "b")], resource := .eq ("Doc", "d"), conditions := [(true, .binop .add (.lit (.long 1)) (.lit (.long 2))), (false, .isIn (.var .principal) "A::B" (.lit (.entity "C" "x")))] } = true := by
   decide +kernel
 
-/-- the code violates the full statement: `-5.foo` is the minimal rendering of Negate(Access(5, "foo"))
-    (grammar: Unary ::= '-' Member), and the parser rejects it -/
-theorem C07_parse_renderMin_counterexample :
-    ∃ p : Policy, errKind (parsePolicy (renderMin p)) = some .exact ∧
+/-- regression (repaired defect `negated-int-receiver`): `-5.foo` is the minimal rendering of
+    Negate(Access(5, "foo")) (grammar: Unary ::= '-' Member); it is inside the fragment and parsed back — the
+    negative-literal special case used to swallow `-5` and reject `.foo`.  The bare `-5` is still the literal. -/
+example :
+    let p : Policy := { effect := .permit, conditions := [(true, .unop .neg (.access (.lit (.long 5)) "foo"))] }
+    policyOK false p = true ∧ parsePolicy (renderMin p) = some (.ok p) ∧
       (renderMin p).map (·.text) = ["permit", "(", "principal", ",", "action", ",", "resource", ")", "when", "{", "-", "5", ".", "foo", "}", ";"] :=
-  ⟨{ effect := .permit, conditions := [(true, .unop .neg (.access (.lit (.long 5)) "foo"))] }, by decide +kernel, by decide +kernel⟩
+  ⟨by decide +kernel, C07_parse_policy_renderMin_partial _ (by decide +kernel), by decide +kernel⟩
+
+example : errKind (parseExpr [opT "-", intT 5, opT "[", strT "a", opT "]", opT ".", idT "isEmpty", opT "(", opT ")"]) = none ∧
+    parseExpr (render false (.unop .neg (.unop .isEmpty (.access (.lit (.long 5)) "a b")))) =
+      some (.ok (.unop .neg (.unop .isEmpty (.access (.lit (.long 5)) "a b")), [])) ∧
+    parseExpr (render false (.lit (.long (-5)))) = some (.ok (.lit (.long (-5)), [])) :=
+  ⟨by decide +kernel, C07_parse_renderMin_partial _ (by decide +kernel), C07_parse_renderMin_partial _ (by decide +kernel)⟩
 
 /-! ## texts outside the grammar are rejected -/
 
@@ -192,9 +201,9 @@ theorem C07_rejects_reserved_elsewhere (E : EP) (n : Nat) (lhs : Expr) (t : Toke
   ⟨access_rejects_reserved E n lhs t rest hty, recordKey_rejects_reserved t hty, has_rejects_reserved lhs t rest hty,
    path_rejects_reserved t rest hty, entity_rejects_reserved t rest hty⟩
 
-theorem C07_rejects_duplicate_annotation (k v1 v2 : String) (rest : List Token) (hv1 : replacementChar ∉ v1.toList) :
+theorem C07_rejects_duplicate_annotation (k v1 v2 : String) (rest : List Token) :
     annotations [] (opT "@" :: idT k :: opT "(" :: strT v1 :: opT ")" :: opT "@" :: idT k :: opT "(" :: strT v2 :: opT ")" :: rest)
-      = .error .dupAnnotation := annotations_two_equal k v1 v2 rest hv1
+      = .error .dupAnnotation := annotations_two_equal k v1 v2 rest
 
 theorem C07_rejects_duplicate_record_key (E : EP) (n : Nat) (known : List String) (kt : Token) (k : String) (ts1 : List Token)
     (v : Expr) (ts2 : List Token) (hne : (kt.text == "}") = false) (hk : recordKey kt = .ok k)
